@@ -107,7 +107,7 @@ class C17:
                    'libFuzzer runs are pinned only approximately by -seed; a saved crash artefact is the reproducible unit']
 
     def budget(self, tier):
-        return 1200 if tier == 'quick' else 30000
+        return 1200 if tier == 'quick' else 15000
 
     def prepare(self, tree, tier):
         build_native(tree, fuzz=True)
